@@ -5,8 +5,9 @@ import StorageModel.C03.Model
 
     store A "things":  name (unique), alias (nullable unique), roles (set index),
                        owner (nullable fk index → B.things), dep (nullable fk constraint → B,
-                       cascade delete), groups (link collection ↔ B.members),
-                       rcB (ref-counted link collection ↔ B.rcA)
+                       cascade delete), boss (nullable fk constraint → A itself, cascade delete:
+                       deleting an entity deletes its transitive referrers, cycles included),
+                       groups (link collection ↔ B.members), rcB (ref-counted link collection ↔ B.rcA)
     store A1:          plain child of A (`ext1`), code (unique, non-nullable),
                        pals (link collection owned by the CHILD store ↔ B.palsOf)
     store B "owners":  label (nullable unique), things (back-references), members / palsOf / rcA
@@ -179,6 +180,8 @@ structure EntA where
   roles : List Bytes
   owner : Option Bytes
   dep : Option Bytes
+  /-- self reference (fk constraint → A, cascade delete) -/
+  boss : Option Bytes
   /-- `ext1/code` (`none`: the entity has no child-store data) -/
   code : Option Bytes
   deriving DecidableEq, Repr
@@ -221,6 +224,7 @@ structure ValsA where
   owner : Option Bytes
   dep : Option Bytes
   groups : List Id
+  boss : Option Bytes
   deriving Repr
 
 structure ChkA where
@@ -230,6 +234,7 @@ structure ChkA where
   owner : Bool
   dep : Bool
   groups : Bool
+  boss : Bool
   deriving Repr
 
 inductive Op
@@ -260,7 +265,8 @@ def persistFields (old : EntA) (v : ValsA) (chk : Option ChkA) : EntA :=
     alias := if proceed chk (·.alias) then v.alias else old.alias
     roles := if proceed chk (·.roles) then setOf v.roles else old.roles
     owner := if proceed chk (·.owner) then v.owner else old.owner
-    dep := if proceed chk (·.dep) then v.dep else old.dep }
+    dep := if proceed chk (·.dep) then v.dep else old.dep
+    boss := if proceed chk (·.boss) then v.boss else old.boss }
 
 /-! ### fkIndex A.owner → B.things -/
 
@@ -292,7 +298,15 @@ def depAfter (isCreate : Bool) (old new : Bytes) (s : State) : Except Err State 
   else if new ≠ [] then (if s.bEx new then .ok s else .error .notFound)
   else .ok s
 
-/-! ### IndexingContext for A (constraints in registration order: name, alias, roles, owner, dep) -/
+/-- `fkConstraint.ProcessAfterUpdate` of the self reference A.boss → A (nullable): the target must be
+    an entity of store A (the entity being written already is one); nothing is written -/
+def bossAfter (isCreate : Bool) (old new : Bytes) (s : State) : Except Err Unit :=
+  if !isCreate && old == new then .ok ()
+  else if new ≠ [] then (if s.aEx new then .ok () else .error .notFound)
+  else .ok ()
+
+/-! ### IndexingContext for A (constraints in registration order: boss (fk constraint, then its
+    cascade), name, alias, roles, owner, dep) -/
 
 structure Captured where
   name : Bytes
@@ -300,8 +314,9 @@ structure Captured where
   roles : List Bytes
   owner : Bytes
   dep : Bytes
+  boss : Bytes
 
-def Captured.none : Captured := ⟨[], [], [], [], []⟩
+def Captured.none : Captured := ⟨[], [], [], [], [], []⟩
 
 def evName : Option EntA → Bytes
   | some e => e.name
@@ -318,16 +333,20 @@ def evOwner : Option EntA → Bytes
 def evDep : Option EntA → Bytes
   | some e => e.dep.getD []
   | none => []
+def evBoss : Option EntA → Bytes
+  | some e => e.boss.getD []
+  | none => []
 def evCode : Option EntA → Bytes
   | some e => e.code.getD []
   | none => []
 
 def captureA (s : State) (id : Id) : Captured :=
   let e := s.a.lookup id
-  ⟨evName e, evAlias e, evRoles e, evOwner e, evDep e⟩
+  ⟨evName e, evAlias e, evRoles e, evOwner e, evDep e, evBoss e⟩
 
 def afterUpdateA (isCreate : Bool) (cap : Captured) (s : State) (id : Id) : Except Err State := do
   let e := s.a.lookup id
+  let _ ← bossAfter isCreate cap.boss (evBoss e) s
   let un ← uniqueAfter isCreate false cap.name (evName e) id s.uName
   let ua ← uniqueAfter isCreate true cap.alias (evAlias e) id s.uAlias
   let sr ← setAfter cap.roles (evRoles e) id s.sRoles
@@ -357,7 +376,7 @@ def createA (s : State) (id : Id) (v : ValsA) : Except Err State :=
   if id = [] then .error .other
   else if (s.a.lookup id).isSome then .error .exists
   else do
-    let e : EntA := ⟨v.name, v.alias, setOf v.roles, v.owner, v.dep, none⟩
+    let e : EntA := ⟨v.name, v.alias, setOf v.roles, v.owner, v.dep, v.boss, none⟩
     let s1 := { s with hasA := true, a := s.a.insert id e }
     let s2 ← setGroups s1 id v.groups                      -- an error stops the create
     afterUpdateA true Captured.none s2 id
@@ -381,7 +400,7 @@ def createA1 (s : State) (id : Id) (v : ValsA) (code : Bytes) (pals : List Id) :
   else if s.cEx id then .error .exists
   else do
     let cap := if (s.a.lookup id).isSome then captureA s id else Captured.none
-    let e : EntA := ⟨v.name, v.alias, setOf v.roles, v.owner, v.dep, some code⟩
+    let e : EntA := ⟨v.name, v.alias, setOf v.roles, v.owner, v.dep, v.boss, some code⟩
     let s1 := { s with hasA := true, a := s.a.insert id e }
     let s2 ← setGroups s1 id v.groups
     let s2' ← setPals s2 id pals
@@ -389,7 +408,8 @@ def createA1 (s : State) (id : Id) (v : ValsA) (code : Bytes) (pals : List Id) :
     let uc ← uniqueAfter true false [] code id s3.uCode   -- then the child's own index
     pure { s3 with uCode := uc }
 
-def deleteA (s : State) (id : Id) : Except Err State :=
+/-- `DeleteById` on store A when the cascade loops of `boss` find nothing (left) to delete -/
+def deleteA0 (s : State) (id : Id) : Except Err State :=
   if id = [] then .error .notFound
   else match s.a.lookup id with
     | none => .error .notFound
@@ -407,9 +427,63 @@ def deleteA (s : State) (id : Id) : Except Err State :=
       pure { s3 with a := s3.a.erase id, g := { s3.g with fwd := s3.g.fwd.erase id },
                      p := { s3.p with fwd := s3.p.fwd.erase id }, rc := { s3.rc with fwd := s3.rc.fwd.erase id } }
 
+/-! ### the cascading delete of `boss` referrers (`fkDeleteCascadeConstraint.ProcessBeforeDelete`) -/
+
+/-- the entities whose `boss` is the id, in key order (`IterateValidIds` with the referrer filter) -/
+def minions (s : State) (id : Id) : List Id :=
+  setOf ((s.a.entries.filter (fun p => decide (p.2.boss.getD [] = id))).map (·.1))
+
+/-- the cursor loop: a referrer whose own cascading delete is in progress is skipped (fix bda5470);
+    the cursor is re-positioned with `Seek` after every delete, so a referrer that is gone by the
+    time its turn comes is not visited; an error stops the loop -/
+def cascadeLoop (del : State → Id → Except Err State) (busy : List Id) : List Id → State → Except Err State
+  | [], s => .ok s
+  | j :: rest, s =>
+    if busy.contains j || !s.aEx j then cascadeLoop del busy rest s
+    else match del s j with
+      | .ok s' => cascadeLoop del busy rest s'
+      | .error e => .error e
+
+/-- the in-progress set while the referrers of `id` are cascaded (`inProgress[self]`, removed again
+    by the deferred `delete` unless the call is nested in a delete of the same id) -/
+def markBusy (busy : List Id) (id : Id) : List Id := if busy.contains id then busy else id :: busy
+
+def cascadeBoss (del : List Id → State → Id → Except Err State) (busy : List Id) (s : State) (id : Id) :
+    Except Err State :=
+  cascadeLoop (del (markBusy busy id)) (markBusy busy id) (minions s id) s
+
+/-- `A.DeleteById` (also reached from `A1.DeleteById` and from the cascades).  `busy`: the ids whose
+    cascading delete is in progress in this mutate context.  The recursion is bounded by `fuel`
+    (every nested call adds an existing entity to `busy`); running out of it is the stack overflow
+    of the code before fix bda5470 and is reported as `panic`. -/
+def deleteA : Nat → List Id → State → Id → Except Err State
+  | 0, _, _, _ => .error .panic
+  | fuel + 1, busy, s, id =>
+    if id = [] then .error .notFound
+    else match s.a.lookup id with
+      | none => .error .notFound
+      | some e => do
+        -- child store first: its indexing context runs the parent's constraints (the cascade of
+        -- `boss` referrers is the first of them to act), then its own, then the child store's cleanupLinks
+        let s1 ← if e.code.isSome then (do
+            let t0 ← cascadeBoss (deleteA fuel) busy s id
+            let t ← beforeDeleteA t0 id
+            pure { t with uCode := uniqueBeforeDelete (evCode (some e)) t.uCode, p := t.p.cleanFwd t.bEx id })
+          else pure s
+        -- then the parent's own processDeleteConstraints and cleanupLinks
+        let s1' ← cascadeBoss (deleteA fuel) busy s1 id
+        let s2 ← beforeDeleteA s1' id
+        let s3 := { s2 with g := s2.g.cleanFwd s2.bEx id, rc := s2.rc.cleanFwd s2.bEx id }
+        -- DeleteEntity: the entity bucket with everything in it
+        pure { s3 with a := s3.a.erase id, g := { s3.g with fwd := s3.g.fwd.erase id },
+                       p := { s3.p with fwd := s3.p.fwd.erase id }, rc := { s3.rc with fwd := s3.rc.fwd.erase id } }
+
+/-- a delete issued by the caller: nothing is in progress; the fuel covers every entity -/
+def deleteATop (s : State) (id : Id) : Except Err State := deleteA (s.a.length + 1) [] s id
+
 def deleteAll : List Id → State → Except Err State
   | [], s => .ok s
-  | id :: rest, s => match deleteA s id with
+  | id :: rest, s => match deleteATop s id with
     | .ok s' => deleteAll rest s'
     | .error e => .error e
 
@@ -456,7 +530,7 @@ def rcOp (s : State) (f : RcPair → Except Err RcPair) : Except Err State := do
 def stepRaw (s : State) : Op → Except Err State
   | .createA id v => createA s id v
   | .updateA id v chk => updateA s id v chk
-  | .deleteA id => deleteA s id
+  | .deleteA id => deleteATop s id
   | .createA1 id v code pals => createA1 s id v code pals
   | .createB id l => createB s id l
   | .updateB id l chk => updateB s id l chk
@@ -491,6 +565,7 @@ def run (txs : List (List Op)) : State := txs.foldl (fun s ops => (txStep s ops)
 def bOwners : Bytes := [111, 119, 110, 101, 114, 115]
 def bOwner : Bytes := [111, 119, 110, 101, 114]
 def bDep : Bytes := [100, 101, 112]
+def bBoss : Bytes := [98, 111, 115, 115]
 def bGroups : Bytes := [103, 114, 111, 117, 112, 115]
 def bExt1 : Bytes := [101, 120, 116, 49]
 def bCode : Bytes := [99, 111, 100, 101]
@@ -503,7 +578,7 @@ def bRcA : Bytes := [114, 99, 65]
 
 /-- every bucket / field name of the schema -/
 def reserved : List Bytes :=
-  [bU, bIndexes, bThings, bOwners, bName, bAlias, bRoles, bOwner, bDep, bGroups, bExt1, bCode, bLabel, bMembers,
+  [bU, bIndexes, bThings, bOwners, bName, bAlias, bRoles, bOwner, bDep, bBoss, bGroups, bExt1, bCode, bLabel, bMembers,
    bPals, bPalsOf, bRcB, bRcA]
 
 def idxPathA (field : Bytes) : List Bytes := [bU, bIndexes, bThings, field]
@@ -536,7 +611,8 @@ def renderA (s : State) (p : Id × EntA) : List Line :=
     .kv (pathA p.1) bName (typed p.2.name),
     .kv (pathA p.1) bAlias (optField p.2.alias),
     .kv (pathA p.1) bOwner (optField p.2.owner),
-    .kv (pathA p.1) bDep (optField p.2.dep) ] ++
+    .kv (pathA p.1) bDep (optField p.2.dep),
+    .kv (pathA p.1) bBoss (optField p.2.boss) ] ++
   listBucket (pathA p.1 ++ [bRoles]) p.2.roles ++
   optBucket (listBucket (pathA p.1 ++ [bGroups])) (s.g.fwd.lookup p.1) ++
   optBucket (countBucket (pathA p.1 ++ [bRcB])) (s.rc.fwd.lookup p.1) ++
